@@ -717,13 +717,14 @@ fn all_req(rng: &mut Rng, seq: u64) -> Req {
 
 fn emit(out: &mut Out, stream: &str, id: &mut u64, rq: &Req, a: Answer, delta: Option<usize>) -> bool {
     *id += 1;
-    let g = digest(a.resp);
+    let mut g = digest(a.resp);
+    let transient = mp_transient(rq, &mut g).is_some();
     let d = match delta {
         Some(d) => d.to_string(),
         None => "na".to_string(),
     };
     out.line(&format!("{} => {}", rq.line_input(stream, *id), g.line_output(a.port, &d, &format!("r{}", a.resent))));
-    g.status == 200
+    g.status == 200 || transient
 }
 
 // ------------------------------------------------------------ HTTP/2
@@ -733,6 +734,7 @@ fn emit(out: &mut Out, stream: &str, id: &mut u64, rq: &Req, a: Answer, delta: O
 fn emit_h2(out: &mut Out, id: &mut u64, rq: &Req, a: Answer) -> bool {
     *id += 1;
     let mut g = digest(a.resp);
+    mp_transient(rq, &mut g);
     h2_normalise_echo(&mut g);
     out.line(&format!("{} => {}", rq.line_input("h2", *id), g.line_output(a.port, "na", "r0")));
     g.status == 200
@@ -1167,6 +1169,7 @@ fn main() {
         start_server(make_api(), ctx.clone(), ServerOpts { default_request_body_max_bytes: BODY_CAP, ..Default::default() })
     });
     let addr = server.local_addr();
+    let _ = PLAIN_ADDR.set(addr);
 
     // sv: one request per connection
     let mut rng = Rng::from_env(309);
@@ -1180,6 +1183,7 @@ fn main() {
     // pl: pipelined on one connection
     let mut rng = Rng::from_env(409);
     let before_pl = ctx.total();
+    let k10_before_pl = K10_RESENDS.load(std::sync::atomic::Ordering::SeqCst);
     let mut ok_pl = 0usize;
     let mut sent_pl = 0usize;
     for _ in 0..(600 * mult) {
@@ -1194,7 +1198,8 @@ fn main() {
         }
     }
     id += 1;
-    out.line(&format!("ct {} {} {} => {}", id, sent_pl, ok_pl, ctx.total() - before_pl));
+    let k10_now = K10_RESENDS.load(std::sync::atomic::Ordering::SeqCst);
+    out.line(&format!("ct {} {} {} => {}", id, sent_pl, ok_pl, ctx.total() - before_pl - (k10_now - k10_before_pl)));
     out.flush();
 
     // h2: the sv requests over HTTP/2, eight concurrent streams per connection
@@ -1210,6 +1215,38 @@ fn main() {
         let answers = h2_batch(&rt, addr, &reqs);
         for (rq, a) in reqs.iter().zip(answers.into_iter()) {
             emit_h2(&mut out, &mut id, rq, a);
+        }
+    }
+    // thorough: finding K10 needs a schedule; the same conformant multipart request on eight
+    // concurrent streams, many times over, usually shows it a few times (every line is an
+    // ordinary h2 case: delivered, or refused once and delivered on resend)
+    if thorough {
+        let fields = vec![
+            ("f0".to_string(), b"--not-the-boundary\r\nline two".to_vec()),
+            ("f1".to_string(), "/\u{df}\u{3a9}".as_bytes().to_vec()),
+            ("f2".to_string(), b"bb^~".to_vec()),
+        ];
+        let boundary = b"KMy)F+P".to_vec();
+        let payload = multipart_body(&boundary, &fields);
+        let sent = format!("[{}]", fields.iter().map(|(n, d)| mp_field_canon(n, d)).collect::<Vec<_>>().join(";"));
+        for round in 0..3000 {
+            let reqs: Vec<Req> = (0..8)
+                .map(|k| Req {
+                    ep: "mp",
+                    method: "POST",
+                    target: b"/multipart".to_vec(),
+                    ct: Some(b"multipart/form-data; boundary=\"KMy)F+P\"".to_vec()),
+                    framing: Framing::Cl,
+                    payload: payload.clone(),
+                    meta: hex(&boundary),
+                    sent_canon: sent.clone(),
+                    nonce: format!("k10w{}x{}", round, k),
+                })
+                .collect();
+            let answers = h2_batch(&rt, addr, &reqs);
+            for (rq, a) in reqs.iter().zip(answers.into_iter()) {
+                emit_h2(&mut out, &mut id, rq, a);
+            }
         }
     }
     out.flush();
